@@ -1,106 +1,818 @@
-// temporary probe for C15 (replaced by the real harness)
-use samyama::persistence::wal::{Wal, WalEntry};
+//! C15 — write-ahead log: real `samyama::persistence::wal::Wal` vs the Lean model `SgModel.Wal`,
+//! and the executable specification evaluated on the implementation's observations.
+//!
+//! A case is an op history (append / flush / checkpoint / reopen / crash / sync on|off) run on a
+//! real `Wal` in a scratch directory, followed by *variants* of the resulting directory image:
+//! a file truncated at a byte offset, or one byte XOR-ed with a mask.  Each variant is opened
+//! with `Wal::new` and replayed with `replay(from, ·)` for every `from` in `0 ..= top`.
+//!
+//! Text form of a case (corpus / replay files):   `case <OPS> <VARS>`
+//!   OPS  := op(;op)*   op := a<kind> | f | c | r | k<permille> | s0 | s1
+//!   VARS := none | sample | all | v(;v)*   v := t.<file>.<k> | f.<file>.<offset>.<mask>
+use samyama::persistence::wal::{Wal, WalEntry, WalError};
+use serde_json::json;
+use std::collections::HashMap;
+use std::panic::{catch_unwind, AssertUnwindSafe};
+use std::path::{Path, PathBuf};
+use vharness::util::hex;
+use vharness::{driver, Args, Known, Report, Rng};
 
-fn ent(i: u64) -> WalEntry {
-    WalEntry::DeleteNode { tenant: "t".into(), node_id: i }
+const KINDS: u64 = 6;
+
+#[derive(Clone, Debug, PartialEq)]
+enum Op {
+    Append(u64),
+    Flush,
+    Checkpoint,
+    Reopen,
+    Crash(u64), // permille of the not-yet-durable bytes that reach the disk
+    Sync(bool),
 }
 
-fn dump(dir: &std::path::Path) {
-    let mut fs: Vec<_> = std::fs::read_dir(dir).unwrap().flatten().map(|e| e.path()).collect();
-    fs.sort();
-    for f in fs {
-        let b = std::fs::read(&f).unwrap();
-        println!("  {} {} bytes: {}", f.file_name().unwrap().to_str().unwrap(), b.len(), vharness::util::hex(&b));
+#[derive(Clone, Debug)]
+enum VarSel {
+    None,
+    Sample,
+    All,
+    List(Vec<Var>),
+}
+
+#[derive(Clone, Debug, PartialEq)]
+enum Var {
+    Intact,
+    Trunc(usize, usize),
+    Flip(usize, usize, u8),
+}
+
+fn show_ops(ops: &[Op]) -> String {
+    ops.iter()
+        .map(|o| match o {
+            Op::Append(k) => format!("a{}", k),
+            Op::Flush => "f".into(),
+            Op::Checkpoint => "c".into(),
+            Op::Reopen => "r".into(),
+            Op::Crash(p) => format!("k{}", p),
+            Op::Sync(b) => format!("s{}", *b as u8),
+        })
+        .collect::<Vec<_>>()
+        .join(";")
+}
+
+fn parse_ops(s: &str) -> Option<Vec<Op>> {
+    let mut v = vec![];
+    for t in s.split(';') {
+        v.push(match t {
+            "f" => Op::Flush,
+            "c" => Op::Checkpoint,
+            "r" => Op::Reopen,
+            "s0" => Op::Sync(false),
+            "s1" => Op::Sync(true),
+            _ if t.starts_with('a') => Op::Append(t[1..].parse().ok()?),
+            _ if t.starts_with('k') => Op::Crash(t[1..].parse().ok()?),
+            _ => return None,
+        });
+    }
+    Some(v)
+}
+
+fn show_var(v: &Var) -> String {
+    match v {
+        Var::Intact => "n".into(),
+        Var::Trunc(i, k) => format!("t.{}.{}", i, k),
+        Var::Flip(i, p, m) => format!("f.{}.{}.{}", i, p, m),
     }
 }
 
-fn replay(dir: &std::path::Path, from: u64) -> String {
-    let w = Wal::new(dir).unwrap();
-    let mut got = vec![];
-    let r = w.replay(from, |e| {
-        got.push(format!("{:?}", e));
-        Ok(())
+fn parse_vars(s: &str) -> Option<VarSel> {
+    Some(match s {
+        "none" => VarSel::None,
+        "sample" => VarSel::Sample,
+        "all" => VarSel::All,
+        _ => {
+            let mut v = vec![];
+            for t in s.split(';') {
+                let f: Vec<&str> = t.split('.').collect();
+                v.push(match f.as_slice() {
+                    ["n"] => Var::Intact,
+                    ["t", i, k] => Var::Trunc(i.parse().ok()?, k.parse().ok()?),
+                    ["f", i, p, m] => Var::Flip(i.parse().ok()?, p.parse().ok()?, m.parse().ok()?),
+                    _ => return None,
+                });
+            }
+            VarSel::List(v)
+        }
+    })
+}
+
+/// entries are pairwise distinct (the op ordinal is inside) and small-valued
+fn mk_entry(kind: u64, tag: u64) -> WalEntry {
+    match kind % KINDS {
+        0 => WalEntry::DeleteNode { tenant: "".into(), node_id: tag },
+        1 => WalEntry::DeleteEdge { tenant: "t".into(), edge_id: tag },
+        2 => WalEntry::CreateNode {
+            tenant: "".into(),
+            node_id: tag,
+            labels: vec!["L".into()],
+            properties: vec![tag as u8 & 15; (tag % 5) as usize],
+        },
+        3 => WalEntry::UpdateNodeProperties { tenant: "ab".into(), node_id: tag, properties: vec![1, 2, 3], version: tag },
+        4 => WalEntry::CreateEdge {
+            tenant: "t".into(),
+            edge_id: tag,
+            source: 1,
+            target: 2,
+            edge_type: "R".into(),
+            properties: vec![],
+        },
+        _ => {
+            // 12 payload bytes whose last four spell the checksum of the entry with the payload cut to 8
+            // (the witness of the frame-size defect: flip the payload length 12 -> 8)
+            let mk = |p: Vec<u8>| WalEntry::CreateNode { tenant: "".into(), node_id: tag, labels: vec![], properties: p };
+            let mut props = vec![1u8, 2, 3, 4, 5, 6, 7, 8, 0, 0, 0, 0];
+            let x = bincode::serialize(&mk(props[..8].to_vec())).unwrap().iter().fold(0u8, |a, b| a ^ b);
+            props[8] = x;
+            mk(props)
+        }
+    }
+}
+
+fn list_files(dir: &Path) -> Vec<(u64, PathBuf, Vec<u8>)> {
+    let mut v: Vec<(String, PathBuf)> = std::fs::read_dir(dir)
+        .unwrap()
+        .flatten()
+        .filter_map(|e| {
+            let n = e.file_name().to_str()?.to_string();
+            (n.starts_with("wal-") && n.ends_with(".log")).then(|| (n, e.path()))
+        })
+        .collect();
+    v.sort();
+    v.into_iter()
+        .map(|(n, p)| {
+            let name = u64::from_str_radix(&n[4..n.len() - 4], 16).unwrap_or(u64::MAX);
+            let b = std::fs::read(&p).unwrap();
+            (name, p, b)
+        })
+        .collect()
+}
+
+struct Hist {
+    ops_txt: String,       // text form (kinds, permille)
+    ents: Vec<Vec<u8>>,    // entry table
+    model_ops: String,     // OPS of the driver protocol (entry indices, crash byte counts)
+    opobs: String,         // OPOBS
+    files: Vec<(u64, Vec<u8>)>,
+    app: Vec<(u64, usize)>, // (reported sequence, entry index) per appended record
+}
+
+/// run the history on the real Wal
+fn run_real(dir: &Path, ops: &[Op]) -> Hist {
+    let _ = std::fs::remove_dir_all(dir);
+    let mut wal = Some(Wal::new(dir).expect("Wal::new"));
+    let mut is_open = false;
+    let mut ents: Vec<Vec<u8>> = vec![];
+    let mut mops = vec![];
+    let mut obs = vec![];
+    let mut app = vec![];
+    for (ord, op) in ops.iter().enumerate() {
+        let mut ret = "-".to_string();
+        match op {
+            Op::Append(kind) => {
+                let e = mk_entry(*kind, ord as u64 + 1);
+                ents.push(bincode::serialize(&e).unwrap());
+                let s = wal.as_mut().unwrap().append(e).expect("append");
+                ret = s.to_string();
+                app.push((s, ents.len() - 1));
+                mops.push(format!("a{}", ents.len() - 1));
+                is_open = true;
+            }
+            Op::Flush => {
+                wal.as_mut().unwrap().flush().expect("flush");
+                mops.push("f".into());
+            }
+            Op::Checkpoint => {
+                wal.as_mut().unwrap().checkpoint(1000 + ord as u64).expect("checkpoint");
+                // the marker's bytes (it carries a timestamp) are read back from the closed file
+                let fs = list_files(dir);
+                let b = &fs.last().expect("file after checkpoint").2;
+                ents.push(b[b.len() - 24..b.len() - 4].to_vec());
+                app.push((wal.as_ref().unwrap().current_sequence(), ents.len() - 1));
+                mops.push(format!("c{}", ents.len() - 1));
+                is_open = false;
+            }
+            Op::Reopen => {
+                wal = None;
+                wal = Some(Wal::new(dir).expect("Wal::new"));
+                mops.push("r".into());
+                is_open = false;
+            }
+            Op::Crash(permille) => {
+                // bytes that already reached the file vs. bytes the BufWriter still holds
+                let newest = list_files(dir).last().map(|f| f.1.clone());
+                let disk = newest.as_ref().map(|p| std::fs::metadata(p).unwrap().len()).unwrap_or(0);
+                wal = None; // writes out the buffer …
+                let mut k = 0;
+                if is_open {
+                    let p = newest.unwrap();
+                    let full = std::fs::metadata(&p).unwrap().len();
+                    k = disk + (full - disk) * permille.min(&1000) / 1000;
+                    // … of which only `k` bytes survive the crash
+                    let f = std::fs::OpenOptions::new().write(true).open(&p).unwrap();
+                    f.set_len(k).unwrap();
+                }
+                wal = Some(Wal::new(dir).expect("Wal::new"));
+                mops.push(format!("k{}", k));
+                is_open = false;
+            }
+            Op::Sync(b) => {
+                wal.as_mut().unwrap().set_sync_mode(*b);
+                mops.push(format!("s{}", *b as u8));
+            }
+        }
+        obs.push(format!("{}/{}", ret, wal.as_ref().unwrap().current_sequence()));
+    }
+    drop(wal);
+    let files = list_files(dir).into_iter().map(|(n, _, b)| (n, b)).collect();
+    Hist {
+        ops_txt: show_ops(ops),
+        ents,
+        model_ops: if mops.is_empty() { "-".into() } else { mops.join(";") },
+        opobs: if obs.is_empty() { "-".into() } else { obs.join(";") },
+        files,
+        app,
+    }
+}
+
+fn show_files(files: &[(u64, Vec<u8>)]) -> String {
+    if files.is_empty() {
+        "-".into()
+    } else {
+        files.iter().map(|(n, b)| format!("{}:{}", n, hex(b))).collect::<Vec<_>>().join(",")
+    }
+}
+
+fn show_ents(ents: &[Vec<u8>]) -> String {
+    if ents.is_empty() {
+        "-".into()
+    } else {
+        ents.iter().map(|e| hex(e)).collect::<Vec<_>>().join(",")
+    }
+}
+
+/// `Wal::new(dir)` then `replay(from, ·)` for from = 0..=top, in the OBS text form
+fn observe_real(dir: &Path, top: u64, idx: &HashMap<Vec<u8>, usize>) -> Result<String, String> {
+    catch_unwind(AssertUnwindSafe(|| {
+        let w = Wal::new(dir).expect("Wal::new");
+        let mut parts = vec![w.current_sequence().to_string()];
+        for from in 0..=top {
+            let mut got: Vec<String> = vec![];
+            let r = w.replay(from, |e| {
+                let b = bincode::serialize(e).unwrap();
+                got.push(match idx.get(&b) {
+                    Some(i) => i.to_string(),
+                    None => format!("x{}", hex(&b)),
+                });
+                Ok(())
+            });
+            let (end, last) = match r {
+                Ok(l) => ("ok".to_string(), l),
+                Err(WalError::Io(_)) => ("io".into(), 0),
+                Err(WalError::Serialization(_)) => ("ser".into(), 0),
+                Err(WalError::Corruption(q)) => (format!("c{}", q), 0),
+                Err(WalError::InvalidEntry(_)) => ("invalid".into(), 0),
+            };
+            parts.push(format!("{}/{}/{}", if got.is_empty() { "-".into() } else { got.join(".") }, end, last));
+        }
+        parts.join("|")
+    }))
+    .map_err(|_| "panic".to_string())
+}
+
+/// which field of which record a byte offset of an intact file falls into
+fn locate(recs: &[(u64, usize)], ents: &[Vec<u8>], mut p: usize) -> Option<(usize, &'static str)> {
+    for (j, (_, ei)) in recs.iter().enumerate() {
+        let n = ents[*ei].len();
+        if p < 4 {
+            return Some((j, "len"));
+        } else if p < 12 {
+            return Some((j, "seq"));
+        } else if p < 12 + n {
+            return Some((j, "entry"));
+        } else if p < 16 + n {
+            return Some((j, "cksum"));
+        }
+        p -= 16 + n;
+    }
+    None
+}
+
+/// the intact records of a file, by walking its frames (stops at a torn tail)
+fn file_recs(bytes: &[u8], idx: &HashMap<Vec<u8>, usize>, seq_of: &HashMap<usize, u64>) -> Result<Vec<(u64, usize)>, String> {
+    let mut o = 0;
+    let mut v = vec![];
+    while o + 4 <= bytes.len() {
+        let len = u32::from_le_bytes(bytes[o..o + 4].try_into().unwrap()) as usize;
+        if o + 4 + len > bytes.len() || len < 12 {
+            break;
+        }
+        let e = &bytes[o + 12..o + 4 + len - 4];
+        let ei = *idx.get(e).ok_or_else(|| format!("frame at {} holds an entry that was never appended", o))?;
+        v.push((*seq_of.get(&ei).unwrap_or(&0), ei));
+        o += 4 + len;
+    }
+    Ok(v)
+}
+
+/// decoder answers for the bodies a reader meets in (possibly damaged) file bytes
+fn hints_for(bytes: &[u8], ents: &[Vec<u8>], out: &mut HashMap<Vec<u8>, Option<usize>>, notes: &mut Vec<String>) {
+    let mut o = 0;
+    while o + 4 <= bytes.len() {
+        let len = u32::from_le_bytes(bytes[o..o + 4].try_into().unwrap()) as usize;
+        if o + 4 + len > bytes.len() {
+            break;
+        }
+        let body = &bytes[o + 4..o + 4 + len];
+        if len >= 8 {
+            let key = &body[8..];
+            if !ents.iter().any(|e| key.starts_with(e)) && !out.contains_key(key) {
+                let ans = match bincode::deserialize::<WalEntry>(key) {
+                    Ok(e) => {
+                        let back = bincode::serialize(&e).unwrap();
+                        if !key.starts_with(&back) && notes.len() < 3 {
+                            notes.push(format!("bincode re-serialisation differs from the bytes read: {}", hex(key)));
+                        }
+                        Some(back.len())
+                    }
+                    Err(_) => None,
+                };
+                out.insert(key.to_vec(), ans);
+            }
+        }
+        o += 4 + len;
+    }
+}
+
+fn write_image(dir: &Path, files: &[(u64, Vec<u8>)]) {
+    let _ = std::fs::remove_dir_all(dir);
+    std::fs::create_dir_all(dir).unwrap();
+    for (n, b) in files {
+        std::fs::write(dir.join(format!("wal-{:016x}.log", n)), b).unwrap();
+    }
+}
+
+const MASKS: [u8; 9] = [1, 2, 4, 8, 16, 32, 64, 128, 255];
+
+fn choose_vars(sel: &VarSel, files: &[(u64, Vec<u8>)], rng: &mut Rng) -> Vec<Var> {
+    let mut v = vec![];
+    match sel {
+        VarSel::None => {}
+        VarSel::List(l) => v = l.clone(),
+        VarSel::Sample | VarSel::All => {
+            v.push(Var::Intact);
+            let all = matches!(sel, VarSel::All);
+            for (i, (_, b)) in files.iter().enumerate() {
+                // truncation: every byte offset of the newest file (of every file when `all`)
+                if all || i + 1 == files.len() {
+                    for k in 0..b.len() {
+                        v.push(Var::Trunc(i, k));
+                    }
+                } else {
+                    for _ in 0..3 {
+                        if !b.is_empty() {
+                            v.push(Var::Trunc(i, rng.usize(b.len())));
+                        }
+                    }
+                }
+                // flips: every byte (all) or a sample
+                for p in 0..b.len() {
+                    if all || rng.chance(1, 5) {
+                        v.push(Var::Flip(i, p, *rng.pick(&MASKS)));
+                    }
+                }
+            }
+        }
+    }
+    v
+}
+
+struct CaseOut {
+    lines: Vec<String>, // driver requests: hist, hspec [, var, vspec]
+    ops_txt: String,
+    vars: Vec<Var>,
+    var_obs: Vec<String>,
+    real_hist: String,
+    regions: Vec<&'static str>,
+    notes: Vec<String>,
+    panics: Vec<String>,
+    hist_nontrivial: bool,
+    recs_err: Option<String>,
+}
+
+fn run_case(work: &Path, ops: &[Op], sel: &VarSel, rng: &mut Rng) -> CaseOut {
+    let dir = work.join("h");
+    let h = run_real(&dir, ops);
+    let idx: HashMap<Vec<u8>, usize> = h.ents.iter().cloned().enumerate().map(|(i, e)| (e, i)).collect();
+    let seq_of: HashMap<usize, u64> = h.app.iter().map(|(s, e)| (*e, *s)).collect();
+    let top = h.app.iter().map(|x| x.0).max().unwrap_or(0) + 1;
+    let ents = show_ents(&h.ents);
+    let mut notes = vec![];
+    let mut panics = vec![];
+    let final_obs = observe_real(&dir, top, &idx).unwrap_or_else(|e| {
+        panics.push("intact".into());
+        e
     });
-    format!("cur={} got={:?} res={:?}", w.current_sequence(), got, r)
+    let real_hist = format!("ok {} {}", h.opobs, show_files(&h.files));
+    let mut lines = vec![
+        format!("hist fixed {} {}", ents, h.model_ops),
+        format!("hspec {} {} {} {}", ents, h.model_ops, h.opobs, final_obs),
+    ];
+    let hist_nontrivial = {
+        // a reopen / checkpoint / crash is followed by an append
+        let mut seen = false;
+        let mut nt = false;
+        for o in ops {
+            match o {
+                Op::Reopen | Op::Checkpoint | Op::Crash(_) => seen = true,
+                Op::Append(_) if seen => nt = true,
+                _ => {}
+            }
+        }
+        nt
+    };
+    let mut out = CaseOut {
+        lines: vec![],
+        ops_txt: h.ops_txt.clone(),
+        vars: vec![],
+        var_obs: vec![],
+        real_hist,
+        regions: vec![],
+        notes: vec![],
+        panics: vec![],
+        hist_nontrivial,
+        recs_err: None,
+    };
+    let vars = choose_vars(sel, &h.files, rng);
+    if !vars.is_empty() {
+        // records per file as the implementation reported them
+        let mut frecs: Vec<Vec<(u64, usize)>> = vec![];
+        for (_, b) in &h.files {
+            match file_recs(b, &idx, &seq_of) {
+                Ok(r) => frecs.push(r),
+                Err(e) => {
+                    out.recs_err = Some(e);
+                    frecs.push(vec![]);
+                }
+            }
+        }
+        let frecs_txt = if frecs.is_empty() {
+            "_".to_string()
+        } else {
+            frecs
+                .iter()
+                .map(|f| {
+                    if f.is_empty() {
+                        "-".to_string()
+                    } else {
+                        f.iter().map(|(s, e)| format!("{}.{}", s, e)).collect::<Vec<_>>().join("+")
+                    }
+                })
+                .collect::<Vec<_>>()
+                .join(",")
+        };
+        let vdir = work.join("v");
+        write_image(&vdir, &h.files);
+        let mut hints: HashMap<Vec<u8>, Option<usize>> = HashMap::new();
+        let mut vobs = vec![];
+        let mut kept = vec![];
+        for v in &vars {
+            let (i, bytes) = match v {
+                Var::Intact => (usize::MAX, vec![]),
+                Var::Trunc(i, k) => {
+                    if *i >= h.files.len() || *k > h.files[*i].1.len() {
+                        continue;
+                    }
+                    (*i, h.files[*i].1[..*k].to_vec())
+                }
+                Var::Flip(i, p, m) => {
+                    if *i >= h.files.len() || *p >= h.files[*i].1.len() || *m == 0 {
+                        continue;
+                    }
+                    let mut b = h.files[*i].1.clone();
+                    // keep the high bytes of a frame length small: `replay` allocates that many bytes
+                    let mut mask = *m;
+                    let mut q = *p;
+                    for (_, ei) in &frecs[*i] {
+                        let fl = 16 + h.ents[*ei].len();
+                        if q < fl {
+                            break;
+                        }
+                        q -= fl;
+                    }
+                    if q == 2 || q == 3 {
+                        mask = 1;
+                    }
+                    b[*p] ^= mask;
+                    hints_for(&b, &h.ents, &mut hints, &mut notes);
+                    kept.push(Var::Flip(*i, *p, mask));
+                    out.regions.push(locate(&frecs[*i], &h.ents, *p).map(|x| x.1).unwrap_or("tail"));
+                    let path = vdir.join(format!("wal-{:016x}.log", h.files[*i].0));
+                    std::fs::write(&path, &b).unwrap();
+                    let o = observe_real(&vdir, top, &idx).unwrap_or_else(|e| {
+                        panics.push(show_var(kept.last().unwrap()));
+                        e
+                    });
+                    std::fs::write(&path, &h.files[*i].1).unwrap();
+                    vobs.push(o);
+                    continue;
+                }
+            };
+            kept.push(v.clone());
+            if i == usize::MAX {
+                out.regions.push("intact");
+                vobs.push(observe_real(&vdir, top, &idx).unwrap_or_else(|e| {
+                    panics.push("n".into());
+                    e
+                }));
+            } else {
+                let inside = match v {
+                    Var::Trunc(i, k) => locate(&frecs[*i], &h.ents, *k).map(|x| x.1 != "len").unwrap_or(false),
+                    _ => false,
+                };
+                out.regions.push(if inside { "trunc-body" } else { "trunc-edge" });
+                let path = vdir.join(format!("wal-{:016x}.log", h.files[i].0));
+                std::fs::write(&path, &bytes).unwrap();
+                vobs.push(observe_real(&vdir, top, &idx).unwrap_or_else(|e| {
+                    panics.push(show_var(v));
+                    e
+                }));
+                std::fs::write(&path, &h.files[i].1).unwrap();
+            }
+        }
+        if !kept.is_empty() {
+            let hints_txt = if hints.is_empty() {
+                "-".to_string()
+            } else {
+                let mut hv: Vec<String> = hints
+                    .iter()
+                    .map(|(k, a)| format!("{}:{}", hex(k), a.map(|n| n.to_string()).unwrap_or("x".into())))
+                    .collect();
+                hv.sort();
+                hv.join(",")
+            };
+            let vars_txt = kept.iter().map(show_var).collect::<Vec<_>>().join(";");
+            lines.push(format!("var fixed {} {} {} {} {}", ents, top, show_files(&h.files), hints_txt, vars_txt));
+            lines.push(format!(
+                "vspec {} {} {}",
+                ents,
+                frecs_txt,
+                kept.iter().zip(vobs.iter()).map(|(v, o)| format!("{}={}", show_var(v), o)).collect::<Vec<_>>().join("#")
+            ));
+        }
+        out.vars = kept;
+        out.var_obs = vobs;
+    }
+    out.lines = lines;
+    out.notes = notes;
+    out.panics = panics;
+    out
 }
 
 fn main() {
-    let base = tempfile::tempdir().unwrap();
-    // 1. reopen
-    let d = base.path().join("a");
-    {
-        let mut w = Wal::new(&d).unwrap();
-        let s: Vec<u64> = (1..=3).map(|i| w.append(ent(i)).unwrap()).collect();
-        println!("first session {:?}", s);
+    let args = Args::parse();
+    let known = Known::load(&args.known, "C15");
+    let mut rep = Report::new(
+        "C15",
+        "a case is (op history over append/flush/checkpoint/reopen/crash/sync) or (history, image variant); \
+         variants: a file truncated at a byte offset, or one byte XOR-ed with a mask; each replayed for every `from`; \
+         non-trivial = the truncation / flip offset lies inside a record body (not in the length prefix / on a frame boundary), \
+         or, for a bare history, an append follows a reopen / checkpoint / crash; distinct = distinct (history, variant) text",
+        &args.replays,
+        args.seed,
+    );
+    let exe = args.driver_exe("drv_wal");
+    let tmp = tempfile::Builder::new().prefix("c15").tempdir_in(&args.work).expect("work dir");
+    let mut rng = Rng::new(args.seed);
+
+    // 1. corpus / replay
+    let mut cases: Vec<(Vec<Op>, VarSel)> = vec![];
+    let mut files: Vec<PathBuf> = vec![];
+    if let Some(r) = &args.replay {
+        files.push(r.clone());
+    } else if let Ok(rd) = std::fs::read_dir(args.corpus.join("C15")) {
+        files = rd.filter_map(|e| e.ok().map(|e| e.path())).collect();
+        files.sort();
     }
-    {
-        let mut w = Wal::new(&d).unwrap();
-        println!("reopen cur={}", w.current_sequence());
-        let s: Vec<u64> = (4..=5).map(|i| w.append(ent(i)).unwrap()).collect();
-        println!("second session {:?}", s);
-    }
-    dump(&d);
-    println!("{}", replay(&d, 0));
-    println!("{}", replay(&d, 3));
-    // 2. torn
-    let d = base.path().join("b");
-    {
-        let mut w = Wal::new(&d).unwrap();
-        for i in 1..=2 {
-            w.append(ent(i)).unwrap();
+    let mut n_corpus = 0;
+    for f in &files {
+        for line in std::fs::read_to_string(f).unwrap_or_default().lines() {
+            let t: Vec<&str> = line.split_whitespace().collect();
+            if t.len() == 3 && t[0] == "case" {
+                if let (Some(o), Some(v)) = (parse_ops(t[1]), parse_vars(t[2])) {
+                    cases.push((o, v));
+                    n_corpus += 1;
+                }
+            }
         }
     }
-    dump(&d);
-    let f = d.join("wal-0000000000000001.log");
-    let bytes = std::fs::read(&f).unwrap();
-    for k in [bytes.len() - 1, bytes.len() / 2 + 6, bytes.len() / 2 + 3, bytes.len() / 2] {
-        std::fs::write(&f, &bytes[..k]).unwrap();
-        println!("trunc {} -> {}", k, replay(&d, 0));
-    }
-    // 3. flip in seq
-    let mut b2 = bytes.clone();
-    b2[4] ^= 0x08;
-    std::fs::write(&f, &b2).unwrap();
-    println!("flip seq byte -> {}", replay(&d, 0));
-    println!("flip seq byte from=2 -> {}", replay(&d, 2));
-    // 4. crafted: flip a length inside the entry so that the tail of the payload is read as checksum
-    let d = base.path().join("c");
-    {
-        let mut w = Wal::new(&d).unwrap();
-        // entry bytes: tag(4) tenant len(8) node_id(8) labels len(8) props len(8) props(12)
-        let mut props = vec![1u8, 2, 3, 4, 5, 6, 7, 8, 0, 0, 0, 0];
-        let mk = |p: Vec<u8>| WalEntry::CreateNode { tenant: "".into(), node_id: 7, labels: vec![], properties: p };
-        // xor of the entry with props truncated to 8 and length byte 8
-        let tr = bincode::serialize(&mk(props[..8].to_vec())).unwrap();
-        let x = tr.iter().fold(0u8, |a, b| a ^ b);
-        props[8] = x;
-        w.append(mk(props)).unwrap();
-        w.append(ent(2)).unwrap();
-    }
-    dump(&d);
-    println!("crafted intact -> {}", replay(&d, 0));
-    let f = d.join("wal-0000000000000001.log");
-    let mut b = std::fs::read(&f).unwrap();
-    // offset of props len: 4 (frame len) + 8 (seq) + 4 + 8 + 8 + 8 = 40
-    assert_eq!(b[40], 12);
-    b[40] ^= 0x04;
-    std::fs::write(&f, &b).unwrap();
-    println!("crafted flipped -> {}", replay(&d, 0));
-    // 5. flip frame length upward
-    let d = base.path().join("e");
-    {
-        let mut w = Wal::new(&d).unwrap();
-        for i in 1..=3 {
-            w.append(ent(i)).unwrap();
+    rep.count_n("corpus_cases", n_corpus);
+
+    if args.replay.is_none() {
+        // 2. exhaustive small scope: every history of length <= L over the alphabet (bare histories),
+        //    every 9th with sampled variants
+        let alpha = vec![
+            Op::Append(0),
+            Op::Append(2),
+            Op::Flush,
+            Op::Checkpoint,
+            Op::Reopen,
+            Op::Crash(0),
+            Op::Crash(500),
+            Op::Sync(true),
+        ];
+        let lmax = if args.thorough() { 5 } else { 4 };
+        let mut count = 0u64;
+        for l in 1..=lmax {
+            let n = alpha.len();
+            for mut x in 0..n.pow(l as u32) {
+                let mut s = Vec::with_capacity(l);
+                for _ in 0..l {
+                    s.push(alpha[x % n].clone());
+                    x /= n;
+                }
+                count += 1;
+                let sel = if count % (if args.thorough() { 23 } else { 67 }) == 0 { VarSel::Sample } else { VarSel::None };
+                cases.push((s, sel));
+            }
+        }
+        rep.exhaustive = true;
+        rep.exhaustive_note = format!(
+            "every op history of length <= {} over {{append(2 entry kinds), flush, checkpoint, reopen, crash(0%|50% of the buffered bytes survive), sync on}} ({} histories, history specification + model image equality); image variants (truncation at every byte offset of the newest file — of every file in the thorough tier —, single-byte flips) on a subset of these and on PRNG histories (not exhaustive)",
+            lmax, count
+        );
+        // 3. PRNG histories with variants
+        let n_rand = if args.thorough() { 1200 } else { 60 };
+        for c in 0..n_rand {
+            let len = 3 + rng.usize(8);
+            let mut s = vec![];
+            for _ in 0..len {
+                s.push(match rng.below(16) {
+                    0..=7 => Op::Append(rng.below(KINDS)),
+                    8 => Op::Flush,
+                    9 => Op::Checkpoint,
+                    10 | 11 => Op::Reopen,
+                    12 | 13 => Op::Crash(*rng.pick(&[0, 0, 300, 500, 700, 1000])),
+                    14 => Op::Sync(true),
+                    _ => Op::Sync(false),
+                });
+            }
+            let sel = if args.thorough() && c % 3 == 0 { VarSel::All } else { VarSel::Sample };
+            cases.push((s, sel));
         }
     }
-    let f = d.join("wal-0000000000000001.log");
-    let mut b = std::fs::read(&f).unwrap();
-    b[0] ^= 0x01;
-    std::fs::write(&f, &b).unwrap();
-    println!("len flip +1 -> {}", replay(&d, 0));
-    b[0] ^= 0x01;
-    b[0] ^= 0x40;
-    std::fs::write(&f, &b).unwrap();
-    println!("len flip +64 -> {}", replay(&d, 0));
+
+    // evaluate in chunks: real runs in threads, then the driver over all lines
+    let threads = 8usize;
+    let mut first_break: Option<(String, String)> = None;
+    for (ci, chunk) in cases.chunks(1500).enumerate() {
+        let seeds: Vec<u64> = chunk.iter().map(|_| rng.next_u64()).collect();
+        let mut slots: Vec<Option<CaseOut>> = (0..chunk.len()).map(|_| None).collect();
+        std::thread::scope(|sc| {
+            let mut hs = vec![];
+            for t in 0..threads {
+                let work = tmp.path().join(format!("t{}-{}", ci, t));
+                let seeds = &seeds;
+                hs.push(sc.spawn(move || {
+                    std::fs::create_dir_all(&work).unwrap();
+                    let mut res = vec![];
+                    // round-robin, so that the expensive cases (at the end of the list) are spread out
+                    for j in (t..chunk.len()).step_by(threads) {
+                        let mut r = Rng::new(seeds[j]);
+                        res.push((j, run_case(&work, &chunk[j].0, &chunk[j].1, &mut r)));
+                    }
+                    res
+                }));
+            }
+            for h in hs {
+                for (j, o) in h.join().expect("case thread") {
+                    slots[j] = Some(o);
+                }
+            }
+        });
+        let outs: Vec<CaseOut> = slots.into_iter().map(|o| o.unwrap()).collect();
+        let mut lines = vec![];
+        let mut at = vec![];
+        for o in &outs {
+            at.push(lines.len());
+            lines.extend(o.lines.iter().cloned());
+        }
+        let replies = driver::par_batch(&exe, &lines, 12);
+        for (o, a) in outs.iter().zip(at.iter()) {
+            let sel_txt = if o.vars.is_empty() { "none".to_string() } else { o.vars.iter().map(show_var).collect::<Vec<_>>().join(";") };
+            let case_line = format!("case {} {}", o.ops_txt, sel_txt);
+            for op in o.ops_txt.split(';') {
+                rep.count(&format!("op:{}", &op[..1]));
+            }
+            for n in &o.notes {
+                rep.notes.push(n.clone());
+            }
+            // the history
+            rep.case(&o.ops_txt, o.hist_nontrivial);
+            let m_hist = &replies[*a];
+            let s_hist = &replies[*a + 1];
+            let body = format!(
+                "{}\nimpl  {}\nmodel {}\nrequest {}\nspec  {}",
+                format!("case {} none", o.ops_txt),
+                o.real_hist,
+                m_hist,
+                lines[*a + 1],
+                s_hist
+            );
+            if let Some(e) = &o.recs_err {
+                rep.spec_violation(&known, "foreign-record", &format!("{} on `{}`", e, o.ops_txt), &body);
+            }
+            for p in &o.panics {
+                rep.spec_violation(&known, "replay-panic", &format!("Wal::new/replay panicked on variant {} of `{}`", p, o.ops_txt), &case_line);
+            }
+            if s_hist != "ok" {
+                let sig = if s_hist == "viol durable" {
+                    "durable-record-lost"
+                } else if s_hist == "viol core" {
+                    if o.ops_txt.contains('r') || o.ops_txt.contains('k') { "sequence-after-reopen" } else { "history-replay" }
+                } else {
+                    "driver-rejected"
+                };
+                rep.count(&format!("spec_violation:{}", sig));
+                rep.spec_violation(&known, sig, &format!("history specification: {} on `{}`", s_hist, o.ops_txt), &body);
+            } else if *m_hist != o.real_hist {
+                rep.count("model_mismatch:history");
+                if first_break.is_none() {
+                    first_break = Some(("history".into(), body));
+                }
+            }
+            if rep.samples.len() < 2 && o.hist_nontrivial && !o.vars.is_empty() {
+                rep.sample(json!({"case": format!("case {} sample", o.ops_txt), "impl": o.real_hist, "variants": o.vars.len()}));
+            }
+            // the variants
+            if o.vars.is_empty() {
+                continue;
+            }
+            let m_var = &replies[*a + 2];
+            let s_var = &replies[*a + 3];
+            let mobs: Vec<&str> = m_var.strip_prefix("ok ").map(|x| x.split('#').collect()).unwrap_or_default();
+            let mut viol: HashMap<usize, String> = HashMap::new();
+            if let Some(v) = s_var.strip_prefix("viol ") {
+                for t in v.split(',') {
+                    if let Some((k, w)) = t.split_once(':') {
+                        viol.insert(k.parse().unwrap_or(usize::MAX), w.to_string());
+                    }
+                }
+            } else if s_var != "ok" {
+                rep.spec_violation(&known, "driver-rejected", &format!("vspec answered {}", s_var), &format!("{}\n{}", case_line, lines[*a + 3]));
+            }
+            for (k, v) in o.vars.iter().enumerate() {
+                let region = o.regions[k];
+                let nt = matches!(region, "seq" | "entry" | "cksum" | "trunc-body");
+                rep.case(&format!("{} {}", o.ops_txt, show_var(v)), nt);
+                rep.count(&format!("variant:{}", region));
+                let robs = &o.var_obs[k];
+                if let Some(end) = robs.split('|').nth(1).and_then(|r| r.split('/').nth(1)) {
+                    rep.count(&format!("replay_end:{}", if end.starts_with('c') { "corrupt" } else { end }));
+                }
+                let one = format!(
+                    "case {} {}\nimpl  {}\nmodel {}",
+                    o.ops_txt,
+                    show_var(v),
+                    robs,
+                    mobs.get(k).unwrap_or(&"?")
+                );
+                if let Some(w) = viol.get(&k) {
+                    let altered = robs.contains('x');
+                    let sig = match (w.as_str(), region) {
+                        ("trunc", _) if robs.contains("/io/") => "torn-body-io-error".to_string(),
+                        ("trunc", _) => "truncate-not-maximal-prefix".to_string(),
+                        ("flip", "seq") => "seq-flip-undetected".to_string(),
+                        ("flip", r) if altered => format!("{}-flip-altered-record", r),
+                        ("flip", r) => format!("{}-flip", r),
+                        (w, _) => format!("{}-replay", w),
+                    };
+                    rep.count(&format!("spec_violation:{}", sig));
+                    rep.spec_violation(&known, &sig, &format!("{} specification violated by variant {} of `{}`", w, show_var(v), o.ops_txt), &one);
+                } else if mobs.get(k).map(|m| *m != robs.as_str()).unwrap_or(true) {
+                    rep.count("model_mismatch:variant");
+                    if first_break.is_none() {
+                        first_break = Some(("variant".into(), one));
+                    }
+                }
+            }
+        }
+    }
+    if let Some((what, body)) = first_break {
+        if rep.spec_violations.is_empty() {
+            rep.correspondence_break(
+                "SgModel.Wal.{step,observe} = Wal::{append,flush,checkpoint,new,replay} (return values, directory bytes, replay observations)",
+                &format!("model and implementation differ on a {} although the specification holds on all explored cases", what),
+                &body,
+            );
+        }
+    }
+    rep.write(&args.out);
 }
